@@ -114,6 +114,9 @@ def run(ctx, rep):
     rep.guarded("R02-DELAYSCAN", lambda: r_delayscan(sh, rep, "R02-DELAYSCAN"))
     rep.rule("R02-CURRYDEF", "builtin currying: a curried definition that applies the curried name of its argument prefix is built only when every argument of that prefix is a constant (only those get a definition)", floor=2)
     rep.guarded("R02-CURRYDEF", lambda: r_currydef(sh, rep, "R02-CURRYDEF"))
+    if t:
+        rep.rule("R02-FOLDOUT", "no foldable builtin introduces a constant the flat encoder refuses (BLS group elements): folding happens after the pass that rewrites such constants", floor=20)
+        rep.guarded("R02-FOLDOUT", lambda: r_foldout(sh, rep, t, "R02-FOLDOUT"))
     rep.guarded("R02-CASE", lambda: r_case(sh, rep))
     rep.guarded("R02-WALK", lambda: r_walk(sh, rep))
     rep.guarded("R02-ONLY", lambda: r_only(sh, rep))
@@ -230,6 +233,9 @@ def r_fold(sh, rep, t):
         arm = safe[v]
         where = sh.loc(SH, arm)
         gsrc = sh.nsrc(SH, arm["body"])
+        if gsrc == "false":
+            rep.ok("R02-FOLD", v + "#never-folded", where, why="the arm is the constant false: no obligation", nontrivial=False)
+            continue
         ex = exits_of(sh, RT, t.call[v]) + exits_of(sh, CM, t.cost[v])
         if not ex:
             rep.ok("R02-FOLD", v + "#no-value-dependent-exit", where, why="neither the call arm nor the costing arm can fail on well-kinded constants", sample={"builtin": v})
@@ -654,6 +660,19 @@ def r_delayscan(sh, rep, rid):
                 ok = bool(guards & others)
                 n_ok += 1
                 rep.check(ok, rid, "carry_args_to_branch#scans-delay-inside#%s#line-offset-%d" % (a["p"], n_ok), sh.loc(SHR, c), "`%s` is the inside of a branch's delay here, and it is scanned as if it were certain to execute without a test that the sibling branch is `error` (guards on this path: %s): a single-use binding is then inlined into one branch of an if/else, and when the other branch is taken the binding's abort never happens" % (a["p"], sorted(guards) or "none"), sample={"name": a["p"], "guards": sorted(guards)})
+    # the exception is sound for a selector with exactly two delayed branches (the sibling *is* the only alternative);
+    # chooseData has five, so `else error` says nothing about the other three
+    from .btab import BuiltinTables
+    tb = BuiltinTables(sh)
+    sel = set()
+    for n in walk(fn["body"]):
+        if n.get("k") == "Arm" and n.get("guard") is not None and "wrapped_name()" in sh.nsrc(SHR, n["guard"]):
+            sel |= set(re.findall(r"DefaultFunction::(\w+)\.wrapped_name\(\)", sh.nsrc(SHR, n["guard"])))
+    for v in sorted(sel):
+        ar = tb.arity.get(v, (None,))[0]
+        rep.check(ar == 3, rid, "carry_args_to_branch#selector#%s#two-branches" % v, sh.loc(SHR, fn), "the `other branch is error, so this one runs` shortcut is applied to %s, which takes %s arguments: with more than two branches the other alternatives may be taken and the moved binding's abort is lost" % (v, ar), sample={"selector": v, "arity": ar})
+    if len(sel) < 2:
+        rep.bad(rid, "carry_args_to_branch#selectors", sh.loc(SHR, fn), "could not read the selector builtins of the shortcut (found %s; anchor)" % sorted(sel))
     if n_ok < 2:
         rep.bad(rid, "carry_args_to_branch#exception-sites", sh.loc(SHR, fn), "only %d scan(s) of a delay's inside found; the `else error` / `then error` exceptions are 2 (anchor)" % n_ok)
 
@@ -697,3 +716,34 @@ def r_currydef(sh, rep, rid):
                 skip_const = i
     rep.check(use_idx is not None and skip_const is not None, rid, "builtin_curry_reducer#registers-constants-only", sh.loc(SHR, lp), "the registration loop must skip non-constant arguments before it builds a definition (anchor for the rule below)", nontrivial=False)
     rep.check(use_idx is not None and skip_prefix is not None, rid, "builtin_curry_reducer#prefix-is-defined", sh.loc(SHR, stmts[use_idx]) if use_idx is not None else sh.loc(SHR, lp), "a curried definition refers to the curried name of its argument prefix (id_vec_function_to_var over the remaining id_vec) without first skipping prefixes that contain a non-constant argument: such a prefix is never defined, the hoisted definition has a free variable and aiken_optimize_and_intern's `try_from(..).unwrap()` panics (FreeUnique)", sample={"loop_statements": len(stmts)})
+
+
+# ---------------------------------------------------------------------------------------------------------
+# R02-FOLDOUT: what the constant folder may leave behind
+# ---------------------------------------------------------------------------------------------------------
+UNENCODABLE = ("Bls12_381G1Element", "Bls12_381G2Element", "Bls12_381MlResult")
+
+
+def r_foldout(sh, rep, t, rid):
+    """The folder replaces a saturated builtin call by its result constant. BLS group elements have no flat encoding;
+    source-level element constants are rewritten into `uncompress(<bytes>)` bindings by bls381_compressor, which runs once
+    *before* any folding. A foldable builtin that turns encodable arguments into an element therefore leaves a constant the
+    serialiser refuses: `aiken build` panics on `hash_to_group(#"..", #"..")`. (Builtins that need an element argument
+    cannot start this: after the compressor there is no element constant to feed them.)"""
+    f = find_method(sh.file(SH), "DefaultFunction", "is_error_safe")
+    m = next(matches_in(f["body"]))
+    enc = sh.nsrc("crates/uplc/src/flat.rs", find_impls(sh.file("crates/uplc/src/flat.rs"), "Constant", trait="Encode")[0]) if find_impls(sh.file("crates/uplc/src/flat.rs"), "Constant", trait="Encode") else ""
+    rep.check(all(("Constant::" + k) in enc for k in UNENCODABLE) and "notsupported" in enc.replace(" ", "").lower().replace("arenot", "not"), rid, "flat#encoder-refuses-bls-constants", "crates/uplc/src/flat.rs", "the premise of this rule — the flat encoder refuses BLS constants — could not be confirmed (anchor)", nontrivial=False)
+    n = 0
+    for v, arm, alt in arm_table(m):
+        if v is None or v not in t.call:
+            continue
+        if sh.nsrc(SH, arm["body"]) == "false":
+            continue
+        n += 1
+        body = sh.nsrc(RT, t.call[v]["body"])
+        produces = [k for k in UNENCODABLE if ("Constant::%s(" % k) in body]
+        consumes = [u for u in (x["m"] for x in walk(t.call[v]["body"]) if x.get("k") == "MethodCall" and x["m"].startswith("unwrap_bls")) ]
+        rep.check(not produces or bool(consumes), rid, "%s#does-not-introduce-unencodable-constant" % v, sh.loc(SH, arm), "%s is foldable and builds a %s from arguments that are all encodable: the folded program carries a constant the flat encoder refuses and the compiler panics when it writes the script" % (v, "/".join(produces)), sample={"builtin": v, "produces": produces, "consumes": consumes})
+    if n < 20:
+        rep.bad(rid, "foldable-arms", sh.loc(SH, f), "only %d foldable arms read from is_error_safe (anchor)" % n)
